@@ -32,10 +32,15 @@ RestoreQueue(q) ==
            ord |-> Cardinality({f \in q : f.t < e.t \/ (f.t = e.t /\ f.sec = e.sec /\ f.ord > e.ord)})] : e \in q}
     ELSE {[c |-> e.c, t |-> e.t, sec |-> e.sec, ord |-> Rank(e, q)] : e \in q}
 Restore(g) == [evq |-> RestoreQueue(g.evq), ord |-> IF RestoreMode = "noseq" THEN 0 ELSE Cardinality(g.evq),
-               guard |-> IF RestoreMode = "noguard" THEN [c \in DOMAIN g.guard |-> [has |-> FALSE, next |-> 0]] ELSE g.guard,
+               \* tickHandled is not part of the checkpoint: the restore clears it. That is
+               \* invisible because it only matters for a TickNow at the instant of the handled
+               \* tick, and a cut is taken after every event of that instant has been handled.
+               guard |-> IF RestoreMode = "noguard"
+                         THEN [c \in DOMAIN g.guard |-> [has |-> FALSE, next |-> 0, handled |-> FALSE]]
+                         ELSE [c \in DOMAIN g.guard |-> [g.guard[c] EXCEPT !.handled = FALSE]],
                pend |-> g.pend]
 Canon(g) == [evq |-> {[c |-> e.c, t |-> e.t, sec |-> e.sec, ord |-> Rank(e, g.evq)] : e \in g.evq},
-             guard |-> g.guard, pend |-> g.pend]
+             guard |-> [c \in DOMAIN g.guard |-> [has |-> g.guard[c].has, next |-> g.guard[c].next]], pend |-> g.pend]
 
 Cut == /\ Boundary /\ cuts < 2 /\ G.evq # {}
        /\ G' = Restore(G) /\ cuts' = cuts + 1
